@@ -367,6 +367,7 @@ def oracles (prev s : St) (impl : List (String × String)) (prevDials : Nat := 0
     (if s.cfg.isPrivate && !s.infoAtAdd && get "info" = "1" then ["C19 private-metadata-from-magnet-kept"] else []) ++
     -- a private torrent is never announced to the DHT, with or without trackers
     (if priv && get "dhtann" = "1" then ["C19 private-torrent-has-dht-announcer"] else []) ++
+    (if priv && get "dhtreq" = "1" then ["C19 private-torrent-queued-for-dht-announce"] else []) ++
     -- the identity a torrent announces with survives a restart of the client (reload op: a second session on a
     -- copy of the resume database); a private torrent added from a .torrent file stays private
     ((commaList (get "reload")).filterMap fun e =>
@@ -437,6 +438,12 @@ def stepDriver (d : DSt) (op implObs : String) : DSt × String × List String :=
   | some s =>
     if s.panicked.isSome then (d, "model-panicked:" ++ s.panicked.getD "", []) else
     let (implVerdict, impl) := splitObs implObs
+    if toks.headD "" = "magnet" && kvStr toks "gone" = "1" && implObs.startsWith "magnet=" then
+      -- the torrent has been removed; only the export through the kept handle is observed
+      let priv := s.info && s.cfg.isPrivate
+      (d, "magnet=" ++ (if priv then "refused" else "ok"),
+        if priv && implObs = "magnet=ok" then ["C19 private-torrent-exported-magnet after-removal=1"] else [])
+    else
     if implObs = "hang" || implObs = "dead" || implObs.startsWith "panic:" then
       -- (when the event that wedged or killed the loop came from a peer it is C08's business as well)
       (d, "alive", [s!"C04 loop-{implObs.takeWhile (· ≠ ':')} op={toks.headD ""}"] ++
